@@ -74,4 +74,26 @@ theorem timed_progress7 (sched : List (Move proto7)) (w : World proto7)
   obtain ⟨w', h1, h2, h3⟩ := timed_progress iface7 Conn7.cfg_ok sim7 loct7 () hO
   exact ⟨w', h1, h3.quiescent h2⟩
 
+/-- **token agreement (0.7)**: in every reachable world the peer token an endpoint attaches to its
+datagrams is the own token of the peer, as long as the peer has one -/
+theorem tokens_agree7 (sched : List (Move proto7)) (w : World proto7)
+    (hrun : run (World.init proto7) sched = some w) (s : Side) {t o : Nat}
+    (h1 : (w.get s).conn.state.theirToken? = some t) (h2 : (w.get s.other).conn.state.ownToken? = some o) :
+    t = o := by
+  have hg := agree7_run sched _ w agree7_init hrun
+  cases s with
+  | a => exact hg.1.agree hg.2 h1 h2
+  | b => exact hg.2.agree hg.1 h1 h2
+
+/-- **timer bounds (0.7)** (`PendingConnect` reports no deadline — D23 — and is not constrained) -/
+theorem timers_due7 (sched : List (Move proto7)) (w : World proto7)
+    (hrun : run (World.init proto7) sched = some w) : Timed w.now w.a.conn ∧ Timed w.now w.b.conn :=
+  run_loct loct7 sched _ w (init_loct loct7) hrun
+
+example : admissible (World.init proto7) busy7 = true := by decide +kernel
+example : ((run (World.init proto7) busy7).map fun w =>
+    ((online w.a.conn).isSome && (online w.b.conn).isSome, w.settled)) = some (true, false) := by decide +kernel
+example : (((run (World.init proto7) busy7).bind (timedRounds () 4)).map World.settled) = some true := by
+  decide +kernel
+
 end Tw.NetSim.P7
